@@ -119,7 +119,35 @@ fn run_scenarios(inp: &str, out: &str) -> i32 {
             }
             continue;
         }
+        // schedule sweep: many cheap runs, the trace of one is kept
+        let mut sc = sc;
+        let mut swept = 0;
+        let mut hit = false;
+        for i in 1..=sc.sched_sweep {
+            let mut alt = sc.clone();
+            alt.sched.seed = sc.sched.seed.wrapping_mul(31).wrapping_add(i as u64 * 7919);
+            alt.sched.policy = if i % 3 == 0 { "pct".into() } else { "random".into() };
+            alt.sched_sweep = 0;
+            let try_sc = alt.clone();
+            let r = std::panic::catch_unwind(std::panic::AssertUnwindSafe(|| run_one(try_sc, next_id)));
+            swept += 1;
+            if let Ok((_, summ, _, _)) = &r {
+                if summ["stuck"] == true || summ["panicked"] == true {
+                    sc = alt;
+                    hit = true;
+                    break;
+                }
+            }
+        }
+        sc.sched_sweep = 0;
         let res = std::panic::catch_unwind(std::panic::AssertUnwindSafe(|| run_one(sc, next_id)));
+        let res = res.map(|(ev, mut summ, defs, nid)| {
+            if swept > 0 {
+                summ["sweep"] = json!(swept);
+                summ["sweep_hit"] = json!(hit);
+            }
+            (ev, summ, defs, nid)
+        });
         match res {
             Ok((ev, summ, defs, nid)) => {
                 for e in ev {
